@@ -244,6 +244,24 @@ class Chk:
             m = mirror(res)
             if m:
                 self.V(fam, "mirror", set(feats) | {"mirror:" + m}, None, m)
+            # a well-formed tensor stores no coordinate outside the shape it reports (integer ranks only)
+            try:
+                shp = res.getShape()
+            except Exception:
+                shp = None
+            if isinstance(shp, list) and ("swap" in fam or "swizzle" in fam):      # permutations: the shape's meaning is unambiguous
+                bad = []
+
+                def _inside(f, d):
+                    for c_, p_ in zip(f.coords, f.payloads):
+                        if d < len(shp) and isinstance(shp[d], int) and isinstance(c_, int) and shp[d] > 0 \
+                                and not 0 <= c_ < shp[d]:
+                            bad.append((d, c_, shp[d]))
+                        if isinstance(p_, Fiber):
+                            _inside(p_, d + 1)
+                _inside(root, 0)
+                if bad:
+                    self.V(fam, "coordinate-outside-reported-shape", feats, shp, bad[:3])
             if self.default != 0:
                 # a point is a coordinate whose value differs from the leaf default: the result must keep it
                 dv = _unbox(res.getDefault())
@@ -642,6 +660,18 @@ def _universe(name):
         return (2, 2, 2), t3(2, 2, 2)
     if name == "T3(2,2,2;-v)":
         return (2, 2, 2), t3(2, 2, 2, "-v")
+    if name == "T3(2,3,2;-0v;<=2)":
+        def _w2(sp):
+            return sum(1 for a in sp if a is not None for b in a if b is not None for x in b if x != '-')
+        return (2, 3, 2), [sp for sp in t3(2, 3, 2, "-0v") if _w2(sp) <= 2 and any(
+            x == '0' for a in sp if a is not None for b in a if b is not None for x in b)]
+    if name == "T3(2,2,2;-0v;<=2)":
+        # trees with explicit defaults, at most two stored leaves (sub-fibers holding only explicit defaults below
+        # the top rank are what the depth > 0 forms of swap / unflatten must still transform)
+        def _w(sp):
+            return sum(1 for a in sp if a is not None for b in a if b is not None for x in b if x != '-')
+        return (2, 2, 2), [sp for sp in t3(2, 2, 2, "-0v") if _w(sp) <= 2 and any(
+            x == '0' for a in sp if a is not None for b in a if b is not None for x in b)]
     if name == "T4c(2,2,2,2;<=4|>=15)":
         return (2, 2, 2, 2), R.t4c_specs((2, 2, 2, 2), at_most=4, at_least=15)
     if name == "T4c(3,1,2,1;<=3)":
@@ -716,7 +746,8 @@ def run(ctx):
     allf = ("ts", "te", "f")
     if q:
         plan = [("T2(3,2)", allf, GROUPS, None),
-                ("T3(2,2,2;-v)", allf, GROUPS, None)]
+                ("T3(2,2,2;-v)", allf, GROUPS, None),
+                ("T3(2,3,2;-0v;<=2)", ("ts",), GROUPS, None)]
     else:
         plan = [("T2(3,2)", allf, GROUPS, None),
                 ("T2(3,3)", allf, GROUPS, None),
